@@ -23,3 +23,21 @@ def g_alpide(F, X):
 
 def register(X, EXTRA):
     EXTRA.append(lambda F: g_alpide(F, X))
+
+
+def g_tdh_after_done(F, X):
+    src = X.strip_comments(X.read(X.FP + "/analyze/validators/its/cdp_running.rs"))
+    body = X.fn_body(src, "check_tdh_by_was_tdt_packet_done_true")
+    val = None
+    if body is not None:
+        val = bool(re.search(r"continuation\s*\(\s*\)\s*!=\s*0", body)) and "[E42]" in body
+    F.add("tdh_after_done_checks_continuation", "bool", val, True,
+          "cdp_running.rs check_tdh_by_was_tdt_packet_done_true: a TDH after a complete packet with continuation != 0 is reported ([E42])")
+
+
+_reg_alpide = register
+
+
+def register(X, EXTRA):
+    _reg_alpide(X, EXTRA)
+    EXTRA.append(lambda F: g_tdh_after_done(F, X))
